@@ -559,6 +559,13 @@ func (i *Interpreter) evaluateLt(left, right interface{}) (interface{}, error) {
 		}
 	}
 
+	// String comparison (lexicographic), as in the VM
+	if leftStr, ok := left.(string); ok {
+		if rightStr, ok := right.(string); ok {
+			return leftStr < rightStr, nil
+		}
+	}
+
 	return nil, fmt.Errorf("cannot compare %T and %T", left, right)
 }
 
@@ -578,6 +585,13 @@ func (i *Interpreter) evaluateLe(left, right interface{}) (interface{}, error) {
 	if leftFloat, ok := coercedLeft.(float64); ok {
 		if rightFloat, ok := coercedRight.(float64); ok {
 			return leftFloat <= rightFloat, nil
+		}
+	}
+
+	// String comparison (lexicographic), as in the VM
+	if leftStr, ok := left.(string); ok {
+		if rightStr, ok := right.(string); ok {
+			return leftStr <= rightStr, nil
 		}
 	}
 
@@ -603,6 +617,13 @@ func (i *Interpreter) evaluateGt(left, right interface{}) (interface{}, error) {
 		}
 	}
 
+	// String comparison (lexicographic), as in the VM
+	if leftStr, ok := left.(string); ok {
+		if rightStr, ok := right.(string); ok {
+			return leftStr > rightStr, nil
+		}
+	}
+
 	return nil, fmt.Errorf("cannot compare %T and %T", left, right)
 }
 
@@ -622,6 +643,13 @@ func (i *Interpreter) evaluateGe(left, right interface{}) (interface{}, error) {
 	if leftFloat, ok := coercedLeft.(float64); ok {
 		if rightFloat, ok := coercedRight.(float64); ok {
 			return leftFloat >= rightFloat, nil
+		}
+	}
+
+	// String comparison (lexicographic), as in the VM
+	if leftStr, ok := left.(string); ok {
+		if rightStr, ok := right.(string); ok {
+			return leftStr >= rightStr, nil
 		}
 	}
 
